@@ -8,7 +8,7 @@ from props import _worldfam as F
 
 PID = 'C09'
 GENERATORS = ['consts']
-LEAN_TARGETS = ['EosProofs.Props.C09']
+LEAN_TARGETS = ['EosProofs.Props.C09', 'EosProofs.Props.C09World']
 DRIVERS = ['drv_world']
 TRUSTED = F.WORLD_TRUSTED
 RULE = ('each generated mutation history is executed three times on the real code: (a) with no reads at all, (b) with '
@@ -20,8 +20,8 @@ RULE = ('each generated mutation history is executed three times on the real cod
 ASSUMPTIONS = ['key enumeration of the attribute map is excluded (documented to grow with reads)',
                'RAH simulator reads: the read-order oracle shared with C12 (attrs[x] vs attrs.get(x), order, repetition, failing simulations)']
 CLAUSES = {
-    'a read never changes what a later read returns; reads commute; repetition is harmless': 'proved for the lazy-cache machine (read_value_independent_of_earlier_reads, read_commute)',
-    'reading more or fewer quantities before a mutation does not change any value after it': 'proved (reads_do_not_affect_future); legality of the removal sets of the eos handlers: see C01',
+    'a read never changes what a later read returns; reads commute; repetition is harmless': 'proved for the lazy-cache machine (read_value_independent_of_earlier_reads, read_commute) and at message level (C09World.read_stable_world, reads_stable_world, read_commute_world)',
+    'reading more or fewer quantities before a mutation does not change any value after it': 'proved (reads_do_not_affect_future) and at message level: erasing every read from a legal history, or inserting / reordering / repeating reads, leaves configuration, registers and every observation unchanged (C09World.reads_erasable_world, reads_reorder_world)',
     'stats / validate reads': 'impl-level oracle (three read schedules) only',
 }
 LEVEL_TEXT = ('Lean theorems on the lazy-cache machine: reads only add coherent entries and never touch the '
